@@ -120,9 +120,8 @@ def check_file_format(repo: Repo, rep: Report, fmt_name, parts=("writer", "reade
             bad("F1.open_file", fmt["writer"], "writer-decorator",
                 "@open_file%s on %s(%s): the index must name the 'path' parameter and the mode must be binary write" % (
                     deco, fmt["writer"], ", ".join(params)), w.lineno)
-        for param, sink, recv, what in (("delimiter", "join", True, "reaches the join of the row fields"),
-                                        ("encoding", "encode", False, "reaches line.encode(..)"),
-                                        ("path", "write", True, "is the object written to")):
+        # the encoding of what is written, and the file it is written to, are decided by interpretation (writer_file.py)
+        for param, sink, recv, what in (("delimiter", "join", True, "reaches the join of the row fields"),):
             r = reaches(repo, rel, w, param, sink, as_receiver=recv)
             ob("F2", fmt["writer"], "%s %s" % (param, what), r)
             if not r:
@@ -145,10 +144,7 @@ def check_file_format(repo: Repo, rep: Report, fmt_name, parts=("writer", "reade
             bad("F1.open_file", fmt["reader"], "reader-decorator",
                 "@open_file%s on %s: the index must name the 'path' parameter and the mode must be binary read" % (deco, fmt["reader"]),
                 r_.lineno)
-        okd = reaches(repo, rel, r_, "encoding", "decode")
-        ob("F2", fmt["reader"], "encoding reaches decode", okd)
-        if not okd:
-            bad("F2.flow", fmt["reader"], "encoding-not-forwarded", "the encoding argument never reaches line.decode(..)", r_.lineno)
+        # the decoding of the file is decided by interpretation (writer_file.check_reader_file)
         # forwarding to the parser and to read_ids
         for callee, needed in ((fmt["parser"], ["comments", "directed", "delimiter", "nodetype", "timestamptype"]),
                                ("read_ids", ["delimiter", "timestamptype", "comments"])):
